@@ -341,3 +341,70 @@ def check_c14(prop, tier, replay, selftest):
     res.rule += "; for C14 a serde round trip + fix_import or a rebuild from the plain node list (as server/src/adf.rs does) happens at a random point of every history and the copy continues the same calls"
     res.assumptions = ["TLC evaluates Persist / RobddOps / AdfSem correctly", "the harness performs the round trips exactly as bin/src/main.rs (serde_json + fix_import) and server/src/adf.rs (decimal strings, Bdd::from(Vec<BddNode>)) do"]
     return res.finish()
+
+
+# ------------------------------------------------------------------ C18
+@register("C18")
+def check_c18(prop, tier, replay, selftest):
+    res = Result(prop, tier)
+    binary = build_harness()
+    out = os.path.join(WORK, "ng_C18.ndjson")
+    os.makedirs(WORK, exist_ok=True)
+    run_harness(binary, ["ng", "--tier", tier, "--out", out])
+    if selftest:
+        r1 = tlc_mc("NoGoods", "NoGoods_v3_origfold.cfg", workers=8, timeout=600)
+        r2 = tlc_mc("NoGoods", "NoGoods_v3_origsub.cfg", workers=8, timeout=600)
+        ok1 = r1["violation"] is not None and "P2" in r1["violation"]
+        ok2 = r2["violation"] is not None
+        print("SELFTEST C18 model: unrepaired fold %s the spurious conflict; unrepaired Subsume %s the forgotten nogood (%s)" %
+              ("rediscovers" if ok1 else "MISSES", "rediscovers" if ok2 else "MISSES", r2["violation"]))
+        def corrupt(rec):
+            if rec.get("kind") != "ngstore":
+                return None
+            for q in rec["queries"]:
+                if q["concl"]["st"] == "some" and len(q["i"]["act"]) == rec["v"]:
+                    q["concl"] = {"st": "none", "act": [], "val": []}     # a total, non-excluded assignment reported as conflict
+                    return rec
+            return None
+        ok = selftest_corrupt("Trace_NoGoods", out, corrupt)
+        print("SELFTEST %s: %s" % (prop, "binding demonstrated" if ok else "FAILED"))
+        return 0 if (ok and ok1 and ok2) else 2
+    res.add_mc(require_mc(tlc_mc("NoGoods", "NoGoods_v3.cfg", workers=12, timeout=900)))
+    if tier == "thorough":
+        res.add_mc(require_mc(tlc_mc("NoGoods", "NoGoods_v3_4adds.cfg", workers=12, timeout=3000)))
+    tr = tlc_trace("Trace_NoGoods", out)
+    res.add_trace(tr)
+    nq = 0
+    seen = set()
+    for line in tr["lines"]:
+        r = json.loads(line)
+        if r.get("kind") != "ngstore":
+            continue
+        nq += len(r["queries"])
+        if any(q["concl"]["st"] == "none" or len(q["concl"]["act"]) > len(q["i"]["act"]) for q in r["queries"]):
+            seen.add(hashlib.sha1(json.dumps(r["steps"]).encode()).hexdigest())
+    for gl, t in tr["tuples"]:
+        if gl is None:
+            continue
+        if t[0] == "MISMATCH":
+            rec = json.loads(tr["lines"][gl - 1])
+            sig = {"added_nogood_size": 0} if str(t[4]).endswith("-emptynogood") else {"predicate": t[4]}
+            kf = known_match(prop, sig)
+            if kf:
+                res.known(kf, "add sequence starting with the empty nogood: %s (record %s)" % (t[4], rec["id"]))
+                continue
+            q = rec["queries"][t[5] - 1] if t[5] else None
+            res.violation("%s_%s_%s" % (rec["id"], t[4], t[5]), {"property": prop, "component": "ngstore", "record": dict(rec, queries=[q] if q else []), "mismatch": t},
+                          "C18 %s: steps %s query %s" % (t[4], json.dumps(rec.get("steps"))[:300], json.dumps(q)[:300]))
+        elif t[0] == "DRIFT":
+            res.drift.append({"record": t[2], "what": t[3]})
+    res.evaluations = nq
+    res.distinct = seen
+    res.rule = ("records = seeded add sequences (1-7 nogoods over 2-6 positions; duplicates, nested and subsuming nogoods, mode switches "
+                "None/Equiv/Subsume) on a real NoGoodStore, each followed by conclusions + closure queries (all 3^v interpretations for v <= 3, "
+                "targeted and random ones above); distinct = distinct add sequence; non-trivial = at least one query yields a conflict or a new literal")
+    res.samples = [dict(json.loads(l), queries=json.loads(l)["queries"][:2], dump="...") for l in tr["lines"][10:12]]
+    res.extra["drift_count"] = len(res.drift)
+    res.assumptions = ["TLC evaluates NoGoodsOps correctly", "hook H2 exports buckets / closure faithfully",
+                       "nogoods larger than the store size are outside the documented domain and not generated"]
+    return res.finish()
